@@ -496,7 +496,7 @@ def run(chk):
     chk.guard('C20.L', check_lint_facts, chk, progs)
     chk.rule('C20.B', 'diffLines of the shipped diff.bare evaluated by the reference evaluator (E9x) on all pairs of small line lists and on texts: blocks reconstruct both inputs', floor=200)
     diff_ok = chk.guard('C20.B', check_diff_eval, chk)
-    (chk.advisory if diff_ok else chk.guard)('C20.D', check_diff_lines, chk, progs)
+    chk.readback(diff_ok)('C20.D', check_diff_lines, chk, progs)
     if diff_ok:
         chk.floors.pop('C20.D', None)
     # every shipped include is lint-clean under the repository's own linter (shared with C18: lint_script evaluated on the parsed includes)
@@ -507,7 +507,9 @@ def run(chk):
     from . import c15
     chk.rule('C15.H', 'shared with C15: regexSplit / arraySlice / arrayGet / arrayLength / arrayPush / objectNew wrappers keep their contracts')
     before = len(chk.instances)
-    chk.guard('C15.H', c15.check_wrappers, chk)
+    chk.rule('C15.R', 'shared with C15: the library functions evaluated (E6c) against their reference models')
+    ref_ok = chk.guard('C15.R', c15.check_reference_sim, chk)
+    chk.readback(ref_ok)('C15.H', c15.check_wrappers, chk)
     keep = ('regexSplit', 'arraySlice', 'arrayGet', 'arrayLength', 'arrayPush', 'arrayExtend', 'arrayCopy')
     chk.instances[before:] = [i for i in chk.instances[before:] if any(k in i['instance'] for k in keep) or i['verdict'] != 'OK']
     # diffLines is lowered to jumps with generated label names that repeat in every parsed file: label lookup must stay per invocation (shared C08.L / C08.E)
